@@ -13,7 +13,7 @@ Extraction "model.ml"
   HMAC_spec get_hmac_raw get_hmac_str to_hex hc_new hmac_init hmac_update hmac_final
   HOTP_spec TOTP_spec DT hotp_from_digest get_hotp_code get_totp_code_at get_totp_code
   is_totp_token_valid_at is_totp_token_valid_now
-  PBKDF2_spec HKDF_extract_spec HKDF_expand_spec pbkdf2_vec pbkdf2_buf pbkdf2_with_pepper hkdf_extract hkdf_expand hkdf_key_iv
+  PBKDF2_spec pbkdf2_F HKDF_extract_spec HKDF_expand_spec pbkdf2_vec pbkdf2_buf pbkdf2_with_pepper hkdf_extract hkdf_expand hkdf_key_iv
   generate_time_token is_token_valid candidates to_string rounded
   v_get_hash v_get_hmac v_hmac_init v_hmac_update v_hmac_final v_pbkdf2_vec v_pbkdf2_buf v_pepper v_hkdf_extract v_hkdf_expand
   v_hotp v_totp_at v_totp_now v_hotp_from_digest v_token v_secret_set
